@@ -84,6 +84,8 @@ TFinal == /\ Ev.e = "Final" /\ phase = "final"
              IN fails' = AddAll(
                   \* C01 : simulating the returned design stays within the limits (unless the continue-escape was used)
                   (IF ~esc /\ ex > Tol THEN {"C01.WithinLimits"} ELSE {})
+                  \* C01 : ... over the REQUESTED horizon: the requested months of a simulation that runs one month longer (= resim beyond two years)
+                  \cup (IF ~esc /\ Excess(Ev.ext_max_uK, Ev.ext_min_uK) > Tol THEN {"C01.WithinLimitsOverHorizon"} ELSE {})
                   \* C02
                   \cup (IF cfg.Hmin_mm <= Ev.H_mm /\ Ev.H_mm <= cfg.Hmax_mm THEN {} ELSE {"C02.HeightInBounds"})
                   \cup (IF cfg.cap > 0 /\ Bisection /\ Ev.n > cfg.cap
@@ -98,6 +100,9 @@ TFinal == /\ Ev.e = "Final" /\ phase = "final"
                   \cup (IF Bisection /\ ~esc /\ \E i \in 1..Len(evals) :
                               evals[i].H_mm = cfg.Hmax_mm /\ evals[i].ex_uK < 0 /\ Ev.n * (Ev.H_mm \div 10) > evals[i].n * (cfg.Hmax_mm \div 10) + Ev.n
                         THEN {"C05.NoLessDrillingEvaluated"} ELSE {})
+                  \* C12 : the returned design is N boreholes SHARING the flow the user gave (SYSTEM) or each carrying it (BOREHOLE)
+                  \cup (IF (IF cfg.flow = "SYSTEM" THEN Abs(Ev.mdot_mgps * Ev.n - cfg.flow_mgps) <= Ev.n + 1 ELSE Abs(Ev.mdot_mgps - cfg.flow_mgps) <= 1)
+                        THEN {} ELSE {"C12.DesignFlowIsInputFlow"})
                   \* C12 : what the object reports is what simulating it gives
                   \cup (IF Abs(Ev.rep_max_uK - Ev.resim_max_uK) > Tol \/ Abs(Ev.rep_min_uK - Ev.resim_min_uK) > Tol THEN {"C12.ReportedIsSimulated"} ELSE {}))
           /\ phase' = "report" /\ l' = l + 1 /\ UNCHANGED <<tid, cfg, evals, sized, outc>>
@@ -108,6 +113,9 @@ TReport == /\ Ev.e = "Report" /\ phase = "report"
                   \cup (IF Abs(Ev.drilling_cm - fin.n * (fin.H_mm \div 10)) <= fin.n + 1 THEN {} ELSE {"C12.DrillingIsCountTimesHeight"})
                   \cup (IF Abs(Ev.sum_max_uK - fin.resim_max_uK) <= Tol /\ Abs(Ev.sum_min_uK - fin.resim_min_uK) <= Tol THEN {} ELSE {"C12.SummaryIsSimulated"})
                   \cup (IF Abs(Ev.sum_H_mm - fin.H_mm) <= 1 THEN {} ELSE {"C12.SummaryHeight"})
+                  \* C12 : the reported design is N boreholes SHARING the flow the user gave (SYSTEM) or each carrying it (BOREHOLE)
+                  \cup (IF (IF cfg.flow = "SYSTEM" THEN Abs(Ev.mdot_mgps * Ev.nbh - cfg.flow_mgps) <= Ev.nbh + 1 ELSE Abs(Ev.mdot_mgps - cfg.flow_mgps) <= 1)
+                        THEN {} ELSE {"C12.ReportedFlowIsInputFlow"})
                   \cup (IF Ev.logrows = Len(evals) THEN {} ELSE {"C12.SearchLogComplete"}))
            /\ phase' = "end" /\ l' = l + 1 /\ UNCHANGED <<tid, cfg, evals, sized, outc, fin>>
 
